@@ -11,9 +11,9 @@ from .smt import S, I, SeqS
 from .vx import (V, NONE, RAISE, HList, HDict, St, OutOfReach, fresh, fresh_name,
                  vint, vbool, vstr, vopq, GHOST_SEQ_FIELDS, GHOST_LIST_FIELDS, CTX_NAMES)
 
-SPEC_BUILTINS = {"call_result", "call_arg", "same_object", "memo_coherent", "sql_count", "sql_kind", "sql_text", "sql_params", "expr_value", "parses_as_int", "prefix", "appended", "keys_of", "implies", "is_str", "is_none", "seq_len", "logged"}
+SPEC_BUILTINS = {"derived", "call_result", "call_arg", "same_object", "memo_coherent", "sql_count", "sql_kind", "sql_text", "sql_params", "expr_value", "parses_as_int", "prefix", "appended", "keys_of", "implies", "is_str", "is_none", "seq_len", "logged"}
 BUILTIN_NAMES = {
-    "call_result", "call_arg", "same_object", "memo_coherent", "sql_count", "sql_kind", "sql_text", "sql_params", "expr_value", "parses_as_int", "prefix", "appended", "keys_of", "implies", "is_str", "is_none", "seq_len", "logged",
+    "derived", "call_result", "call_arg", "same_object", "memo_coherent", "sql_count", "sql_kind", "sql_text", "sql_params", "expr_value", "parses_as_int", "prefix", "appended", "keys_of", "implies", "is_str", "is_none", "seq_len", "logged",
     "len", "int", "str", "max", "min", "isinstance", "callable", "tuple", "list", "map",
     "range", "reversed", "sorted", "any", "all", "ord", "chr", "set", "frozenset", "dict",
     "float", "abs", "round", "repr", "bool", "enumerate", "zip", "iter", "next", "print",
@@ -1067,6 +1067,7 @@ def match_group(x, st, m: V, args, node):
 
 # ---------------------------------------------------------------- calls
 
+PURE_STR_METHODS = {"strip", "lstrip", "rstrip", "lower", "upper"}
 RECORDERS = {"error": "errors", "warning": "warnings", "debug": "debugs", "note": "notes",
              "wiki_notice": "wiki_notices"}
 
@@ -1174,6 +1175,10 @@ def call_opaque(x, st, f: V, pos, kw, node):
     if cbname is not None:
         return call_callback(x, st, src, cbname, pos, kw, node)
     if x.mode == "frame":
+        if f.k == "opq" and f.t.rsplit(".", 1)[-1] in PURE_STR_METHODS and not pos and not kw:
+            # pure str method on an opaque (string) value: a stable derived name, so that data-flow clauses
+            # can say "the trimmed result of ..."
+            return [(st, V("opq", f.t + "()", f.tags))]
         x.assumptions.add(f"opaque callable `{src[:60]}` leaves tracked fields as found on return, only extends the path when raising")
         out = [(st, vopq("ret", f.tags))]
         out.append(_raise_fork(x, st, node))
@@ -1194,6 +1199,8 @@ def call_callback(x, st, name, cbname, pos, kw, node):
             if x.mode == "value":
                 x.oblige("pre@call", node, st, z3.BoolVal(False), detail=f"callback {name} needs a str, got {a.k if a else None}")
             return [(st, fresh("str", "cbret"))]
+        # contract of the expander callback: total, and the empty string expands to the empty string
+        st.pc.append(smt.f_E(z3.StringVal("")) == z3.StringVal(""))
         out = [(st, vstr(smt.f_E(t)))]
         if x.mode == "frame":
             out.append(_raise_fork(x, st, node))
@@ -2005,8 +2012,18 @@ def spec_builtin(x, st, name, pos, kw, node):
         if j >= len(ents[i][2]):
             return [(st, RAISE("ClauseError", "no such argument"))]
         return [(st, ents[i][2][j])]
+    if name == "derived":
+        a, b = pos[0], pos[1]
+        m = x.const_of(pos[2])[0]
+        if a.k == "str" and b.k == "str":
+            f = {"strip": smt.f_strip, "lstrip": smt.f_lstrip, "rstrip": smt.f_rstrip,
+                 "lower": smt.f_lower, "upper": smt.f_upper}[m]
+            return [(st, vbool(a.t.eq(f(b.t))))]
+        return [(st, vbool(a.k == "opq" and b.k == "opq" and a.t == f"{b.t}.{m}()"))]
     if name == "same_object":
         a, b = pos
+        if a.k == b.k and a.k in ("str", "int", "bool") :
+            return [(st, vbool(a.t.eq(b.t)))]
         return [(st, vbool(a.k == b.k and (a.t is b.t or (a.k in ("ref", "opq") and a.t == b.t))))]
     if name == "memo_coherent":
         return [(st, st.ghost.get("memo_valid", vbool(True)))]
